@@ -5,7 +5,7 @@
    hold for every such C, ceq, rnd.  [reloaded m] is the mesh a reader builds from what a writer stored:
    geometry = the rounded coordinates in vertices() order, vertices() = all of them in order,
    triangles = the mesh-local index triples of m, in the same order and with the same winding. *)
-From OM Require Import Base.Lists Geom.MeshCodec Geom.MeshCodecProofs.
+From OM Require Import Base.Lists Geom.MeshCodec Geom.MeshCodecProofs Geom.MeshCodecBytes.
 From Coq Require Import NArith.
 
 Section C15.
@@ -33,6 +33,15 @@ Theorem c15_mesh_roundtrip_bnd : forall m : mesh,
   pdistinct C ceq (map (vrnd C rnd) (coords C c0 m)) -> locally_consistent C m ->
   exists s, save_bnd C rnd c0 m = Ok s /\ load_bnd C ceq s = Ok (reloaded C rnd c0 m).
 Proof. exact (roundtrip_bnd C ceq rnd c0). Qed.
+
+(* ---- save then load, .mesh (byte level: little-endian 32-bit counts, a float32 is one opaque 4-byte item whose
+   value is [rnd x]; the reader sizes its arrays with the 32-bit products 3*npts and 3*ntrgs, hence the bounds).
+   No idempotence of [rnd] is needed: the file holds [rnd x] and the reader widens it back exactly. *)
+Theorem c15_mesh_roundtrip_mesh : forall m : mesh,
+  wf_mesh C m -> fits32 (3 * nv m) = true -> fits32 (3 * nt m) = true ->
+  pdistinct C ceq (map (vrnd C rnd) (coords C c0 m)) -> locally_consistent C m ->
+  exists s, save_mesh C rnd c0 m = Ok s /\ load_mesh C ceq s = Ok (reloaded C rnd c0 m).
+Proof. exact (roundtrip_mesh C ceq rnd c0). Qed.
 
 (* ---- what [reloaded] means in the words of the property *)
 Theorem c15_reloaded_same_counts : forall m : mesh,
@@ -106,6 +115,7 @@ End C15.
 Print Assumptions c15_mesh_roundtrip_tri.
 Print Assumptions c15_mesh_roundtrip_off.
 Print Assumptions c15_mesh_roundtrip_bnd.
+Print Assumptions c15_mesh_roundtrip_mesh.
 Print Assumptions c15_reloaded_same_counts.
 Print Assumptions c15_reloaded_same_triangles.
 Print Assumptions c15_reloaded_rounded_coordinates.
